@@ -63,7 +63,7 @@ Definition printed_val (n : fnote) : option Z :=
 
 Record wf_note (n : fnote) : Prop := {
   wf_lib : exists b, base_note (fk n) (fd n) (printed_val n) = Some b;
-  wf_rest : printed_val n = None -> fv n = 0 /\ fo n = 0;
+  wf_rest : printed_val n = None -> fv n = 0;
   wf_plain : is_note_kind (fk n) = false -> fmode n = None /\ facc n = None;
   wf_den : (Zpos (Qden (Qred (fdur n))) <= LIMIT_DENOM)%Z;
   wf_tags : NoDup (ftags n) }.
@@ -189,7 +189,9 @@ Proof.
   assert (D3 : fd m3 = fd n) by exact Bd. rewrite <- D3.
   rewrite eval_toks_app, (seg_note_oct m3).
   2:{ intros C. apply andb_prop in C. destruct C as [C _]. cbn [m3 m2 m1 with_dur with_oct fk]. rewrite Bk. exact C. }
-  cbn [obind]. set (m4 := with_oct m3 _).
+  cbn [obind]. set (m4a := with_oct m3 _).
+  (* 4b: the octave of a rest or continuation *)
+  rewrite eval_toks_app, seg_oabs. cbn [obind]. set (m4 := with_oct m4a _).
   (* 5, 6: mode, accidental *)
   rewrite eval_toks_app. replace (if isn then match fmode n with Some m => [TMode m] | None => [] end else [])
     with (match (if isn then fmode n else None) with Some x => [TMode x] | None => [] end) by (destruct isn; reflexivity).
@@ -200,7 +202,7 @@ Proof.
   (* 7: dynamics *)
   rewrite eval_toks_app.
   destruct figures_consistent as (_ & Fdef & _).
-  assert (A6 : amp_figure (famp m6) = Fmf) by (cbn [m6 m5 m4 m3 m2 m1 set_acc set_mode with_dur with_oct famp]; rewrite Bamp; exact Fdef).
+  assert (A6 : amp_figure (famp m6) = Fmf) by (cbn [m6 m5 m4 m4a m3 m2 m1 set_acc set_mode with_dur with_oct famp]; rewrite Bamp; exact Fdef).
   destruct (seg_amp m6 (amp_figure (famp n)) A6) as (a & Ha & Fa).
   assert (Amp : exists m7, eval_toks m6 (if isn || isx || isd then match amp_figure (famp n) with Fmf => [] | Fn => [TSetAmp0] | f => [TAmp f] end else [])
                            = Some m7 /\ (fk m7, fd m7, fv m7, fo m7, fdur m7, fmode m7, facc m7, ftags m7) = (fk m6, fd m6, fv m6, fo m6, fdur m6, fmode m6, facc m6, ftags m6) /\
@@ -217,7 +219,7 @@ Proof.
   (* the fields *)
   injection Same7 as S1 S2 S3 S4 S5 S6 S7 S8.
   unfold same_note. cbn [with_tags fk fd fv fo fdur fmode facc famp ftags].
-  cbn [m6 m5 m4 m3 m2 m1 set_acc set_mode with_dur with_oct fk fd fv fo fdur fmode facc famp ftags] in S1, S2, S3, S4, S5, S6, S7.
+  cbn [m6 m5 m4 m4a m3 m2 m1 set_acc set_mode with_dur with_oct fk fd fv fo fdur fmode facc famp ftags] in S1, S2, S3, S4, S5, S6, S7.
   rewrite S1, S2, S3, S4, S5, S6, S7.
   rewrite Bk, Bd, Bv, Bo, Bm, Ba.
   assert (Kr : kind_eqb (fk n) (fk n) = true) by (destruct (fk n); reflexivity).
@@ -227,14 +229,13 @@ Proof.
   (* value, octave, duration, mode, accidental, dynamics *)
   assert (V : (fv n =? match printed_val n with Some x => x | None => 0 end) = true).
   { unfold printed_val. fold isn isd isx. destruct (isn || isd || isx) eqn:P; [apply Z.eqb_refl|].
-    destruct Hrest as [Hv _]; [unfold printed_val; fold isn isd isx; rewrite P; reflexivity|]. rewrite Hv. reflexivity. }
+    rewrite Hrest; [reflexivity|unfold printed_val; fold isn isd isx; rewrite P; reflexivity]. }
   rewrite V.
   assert (O : (fo n =? 0 + (if isd && nonzero (fo n) then fo n else 0) + (if isx && nonzero (fo n) then fo n else 0) +
-                        (if isn && nonzero (fo n) then fo n else 0)) = true).
+                        (if isn && nonzero (fo n) then fo n else 0) + (if is_rest_or_cont (fk n) && nonzero (fo n) then fo n else 0)) = true).
   { apply Z.eqb_eq. unfold nonzero. destruct (fo n =? 0) eqn:Z0; [apply Z.eqb_eq in Z0; rewrite Z0; rewrite !andb_false_r; reflexivity|].
     cbn [negb]. rewrite !andb_true_r. unfold isn, isd, isx.
-    destruct (fk n) eqn:K; cbn [is_note_kind kind_eqb]; try lia;
-    (destruct Hrest as [_ Ho]; [unfold printed_val; rewrite K; reflexivity|lia]). }
+    destruct (fk n) eqn:K; cbn [is_note_kind kind_eqb is_rest_or_cont]; lia. }
   rewrite O.
   assert (Dq : Qeq_bool (fdur n) q = true) by (apply Qeq_bool_iff; symmetry; exact Eq). rewrite Dq.
   assert (Md : option_eqb mode_eqb (fmode n) (match (if isn then fmode n else None) with Some x => Some x | None => None end) = true).
